@@ -22,17 +22,19 @@ const modPath = "github.com/openconfig/gribigo"
 
 // Prog is the loaded program.
 type Prog struct {
-	Fset     *token.FileSet
-	Pkgs     map[string]*packages.Package // repo packages by import path
-	All      []*packages.Package          // repo packages, sorted
-	SSA      *ssa.Program
-	SSAPkgs  map[string]*ssa.Package
-	RepoDir  string
-	Thorough bool
-	declOf   map[*types.Func]*ast.FuncDecl
-	fileOf   map[*ast.File]*packages.Package
-	nFuncs   int
-	cg       *CG
+	Fset        *token.FileSet
+	Pkgs        map[string]*packages.Package // repo packages by import path
+	All         []*packages.Package          // repo packages, sorted
+	SSA         *ssa.Program
+	SSAPkgs     map[string]*ssa.Package
+	RepoDir     string
+	Thorough    bool
+	declOf      map[*types.Func]*ast.FuncDecl
+	fileOf      map[*ast.File]*packages.Package
+	nFuncs      int
+	cg          *CG
+	kindsCache  []*Kind
+	lockAn      *lockAnalysis
 	fieldStores map[*types.Var][]ssa.Instruction
 	storesSeen  map[*ssa.Function]bool
 }
